@@ -5,6 +5,7 @@ an assignment says the value is needed):
 
   H1  every parameter of every function (nested ones included) is read somewhere in its body
   H2  every local name bound by a plain assignment `x = <expr>` (no unpacking, no loop target) is read somewhere in the function
+  H3  a position taken from one sequence (i = S.index(x)) or a wrap-around built from len(S) indexes S itself (22 of 22 sites on the reviewed tree)
 
 On the reviewed tree 859 of 867 parameters and all but a handful of assigned names comply; the exceptions were read and are frozen below
 (interface conformance of overriding methods, context-manager protocol, one documented-but-unimplemented option). A NEW ignored
@@ -120,6 +121,96 @@ def rule_hygiene(ck, repo, R, pid, extra_modules=()):
                     continue
                 ck.bad(R, f'local:{m.name}:{qual}:{tgt}', f'{qual}: `{src(n)[:70]}` binds `{tgt}` which is never read afterwards: a value the code used to consult is now ignored',
                        file=m.relpath, line=n.lineno, func=qual, construct=src(n)[:120])
+    # H3 index / sequence affinity: a position obtained from one sequence (i = S.index(x)) or a wrap-around computed with len(S) indexes S itself
+    n_aff = 0
+    for m in mods:
+        for qual, fn in _functions(m.tree):
+            idx_of = {}
+            for n in ast.walk(fn):
+                if isinstance(n, ast.Assign) and len(n.targets) == 1 and isinstance(n.targets[0], ast.Name) and isinstance(n.value, ast.Call) and \
+                        isinstance(n.value.func, ast.Attribute) and n.value.func.attr == 'index' and isinstance(n.value.func.value, ast.Name):
+                    idx_of.setdefault(n.targets[0].id, set()).add(n.value.func.value.id)
+            for n in ast.walk(fn):
+                if not (isinstance(n, ast.Subscript) and isinstance(n.value, ast.Name)):
+                    continue
+                seq = n.value.id
+                for c in ast.walk(n.slice):
+                    if isinstance(c, ast.Call) and isinstance(c.func, ast.Name) and c.func.id == 'len' and len(c.args) == 1 and isinstance(c.args[0], ast.Name):
+                        n_aff += 1
+                        if c.args[0].id != seq:
+                            ck.bad(R, f'affinity:{m.name}:{qual}:{src(n)}', f'{qual}: `{src(n)}` indexes `{seq}` with a wrap-around computed from len({c.args[0].id}): the length of '
+                                                                             f'another sequence; for sequences of different length this selects another element',
+                                   file=m.relpath, line=n.lineno, func=qual, construct=src(n))
+                    elif isinstance(c, ast.Name) and c.id in idx_of:
+                        n_aff += 1
+                        if seq not in idx_of[c.id]:
+                            ck.bad(R, f'affinity:{m.name}:{qual}:{src(n)}', f'{qual}: `{src(n)}` indexes `{seq}` with `{c.id}`, which is a position in {sorted(idx_of[c.id])}',
+                                   file=m.relpath, line=n.lineno, func=qual, construct=src(n))
+    ck.count(f'{R}: index/sequence affinity sites', n_aff)
+    # H4 elements vs positions: two names whose positions are looked up with S.index(..) are elements (atom numbers); ordering them by value instead
+    # of by position makes the result depend on the numbering
+    for m in mods:
+        for qual, fn in _functions(m.tree):
+            elems = {n.args[0].id for n in ast.walk(fn) if isinstance(n, ast.Call) and isinstance(n.func, ast.Attribute) and n.func.attr == 'index' and
+                     len(n.args) == 1 and isinstance(n.args[0], ast.Name)}
+            if len(elems) < 2:
+                continue
+            for n in ast.walk(fn):
+                if isinstance(n, ast.Compare) and len(n.ops) == 1 and isinstance(n.ops[0], (ast.Lt, ast.Gt, ast.LtE, ast.GtE)) and \
+                        isinstance(n.left, ast.Name) and isinstance(n.comparators[0], ast.Name) and n.left.id in elems and n.comparators[0].id in elems:
+                    ck.bad(R, f'elements-ordered:{m.name}:{qual}:{src(n)}', f'{qual}: `{src(n)}` orders two sequence elements by their values; the function looks up their '
+                                                                            f'positions with .index(): the decision must not depend on how atoms are numbered',
+                           file=m.relpath, line=n.lineno, func=qual, construct=src(n))
+    # H5 a name bound by := in the test of an if / while is read inside that statement, at a later line, or (through a loop back edge) at an earlier
+    # line of an enclosing loop that is not itself guarded by a fresh := binding of the same name
+    n_wal = 0
+    for m in mods:
+        for qual, fn in _functions(m.tree):
+            parents = {}
+            for p_ in ast.walk(fn):
+                for ch in ast.iter_child_nodes(p_):
+                    parents[ch] = p_
+            for st in ast.walk(fn):
+                if not isinstance(st, (ast.If, ast.While)):
+                    continue
+                for w in [x for x in ast.walk(st.test) if isinstance(x, ast.NamedExpr)]:
+                    n_wal += 1
+                    nm = w.target.id
+                    inside = any(isinstance(x, ast.Name) and x.id == nm and isinstance(x.ctx, ast.Load) for part in [st.test] + st.body + st.orelse for x in ast.walk(part))
+                    if inside:
+                        continue
+                    end = getattr(st, 'end_lineno', st.lineno)
+                    def shadowed_(x, stop):
+                        q = parents.get(x)
+                        while q is not None and q is not stop:
+                            if q is not st and isinstance(q, (ast.If, ast.While)) and any(isinstance(y, ast.NamedExpr) and y.target.id == nm for y in ast.walk(q.test)):
+                                return True
+                            q = parents.get(q)
+                        return False
+                    later = any(isinstance(x, ast.Name) and x.id == nm and isinstance(x.ctx, ast.Load) and x.lineno > end and not shadowed_(x, fn) for x in ast.walk(fn))
+                    if later:
+                        continue
+                    # back edge: loads earlier in an enclosing loop, not under another statement that rebinds the name in its own test
+                    back = False
+                    p_ = parents.get(st)
+                    while p_ is not None and not back:
+                        if isinstance(p_, (ast.For, ast.While)):
+                            for x in ast.walk(p_):
+                                if isinstance(x, ast.Name) and x.id == nm and isinstance(x.ctx, ast.Load) and x.lineno < st.lineno:
+                                    q, shadowed = parents.get(x), False
+                                    while q is not None and q is not p_:
+                                        if isinstance(q, (ast.If, ast.While)) and any(isinstance(y, ast.NamedExpr) and y.target.id == nm for y in ast.walk(q.test)):
+                                            shadowed = True
+                                        q = parents.get(q)
+                                    if not shadowed:
+                                        back = True
+                        p_ = parents.get(p_)
+                    if back:
+                        continue
+                    ck.bad(R, f'walrus:{m.name}:{qual}:{nm}@{src(st.test)[:40]}', f'{qual}: `{src(st.test)[:70]}` binds `{nm}` but nothing reads it afterwards: the value the '
+                                                                                  f'branch was written to use is ignored (another variable is used in its place?)',
+                           file=m.relpath, line=st.lineno, func=qual, construct=src(st.test)[:100])
+    ck.count(f'{R}: walrus bindings in tests', n_wal)
     ck.ok(R, 'parameters', f'{n_par} parameters read ({len(ALLOWED_PARAMS)} frozen exceptions)')
     ck.ok(R, 'assignments', f'{n_loc} plain assignments read')
     ck.count(f'{R}: parameters', n_par)
